@@ -551,6 +551,17 @@ func (vc *VC) val(v ssa.Value) SVal {
 		if _, isArr := el.Underlying().(*types.Array); isArr {
 			p.Key = typeKey(flatElem(el))
 		}
+		// assumed facts about package-level variables that only the initialiser assigns
+		if !vc.declared["gf:"+name] {
+			vc.declared["gf:"+name] = true
+			if facts := vc.eng.contracts.GlobalFacts[x.String()]; len(facts) > 0 && vc.eng.initOnlyGlobal(x) {
+				env := &Env{vc: vc, vars: map[string]SVal{x.Name(): p}, mem: vc.mem0}
+				for _, gf := range facts {
+					vc.fact("true", vc.evalBool(gf.E, env))
+					vc.note("assumed: package-level variable %s satisfies %s (assigned only by the package initialiser)", x.Name(), gf.Text)
+				}
+			}
+		}
 		return p
 	case *ssa.Builtin:
 		return refV("0", x.Type())
@@ -590,15 +601,7 @@ func (vc *VC) constVal(c *ssa.Const) SVal {
 		}
 		return intV(lit(n), T)
 	case constant.String:
-		s := constant.StringVal(c.Value)
-		id := vc.eng.stringID(s)
-		// string constants live in objects with negative... no: dedicated positive ids below $A0
-		name := fmt.Sprintf("$S%d", id)
-		if !vc.declared[name] {
-			vc.declare(name, SInt)
-			vc.fact("true", and(lt("0", name), lt(name, "$A0")))
-		}
-		return stringV(T, name, "0", litI(int64(len(s))))
+		return vc.constStr(T, constant.StringVal(c.Value))
 	case constant.Float:
 		return vc.floatConst(c, T)
 	}
